@@ -487,7 +487,10 @@ class Spline(BaseGridder):
         shape = np.broadcast(*coordinates[:2]).shape
         force_east, force_north = n_1d_arrays(self.force_coords_, n=2)
         east, north = n_1d_arrays(coordinates, n=2)
-        data = np.empty(east.size, dtype=east.dtype)
+        # Use a floating point type for the predictions even if the
+        # coordinates are integers
+        dtype = np.result_type(east.dtype, "float32")
+        data = np.empty(east.size, dtype=dtype)
         if parse_engine(self.engine) == "numba":
             data = predict_numba(
                 east, north, force_east, force_north, self.mindist, self.force_, data
